@@ -707,18 +707,29 @@ func ConvertSliceValueType(destTyp reflect.Type, v reflect.Value) (reflect.Value
 }
 
 func findField(name string, typ reflect.Type) (int, error) {
+	if name == "" {
+		return 0, errNoField
+	}
+	// the name with its first letter upper-cased is compared without building it: a wire name is
+	// as long as the peer likes, and this runs for every field of every instance
+	first := name[0]
+	if first >= 'a' && first <= 'z' {
+		first -= _asciiGap
+	}
 	for i := 0; i < typ.NumField(); i++ {
 		str := typ.Field(i).Name
-		if strings.Compare(str, name) == 0 {
-			return i, nil
+		if len(str) != len(name) || str[1:] != name[1:] {
+			continue
 		}
-		str1 := capitalizeName(name)
-		if strings.Compare(str, str1) == 0 {
+		if str[0] == name[0] || str[0] == first {
 			return i, nil
 		}
 	}
-	return 0, errors.New("no field " + name)
+	return 0, errNoField
 }
+
+// errNoField is what findField returns for an unknown name (a fixed error: the caller knows the name)
+var errNoField = errors.New("no field of that name")
 
 // SetValue set the value to dest.
 // It will auto check the Ptr pack level and unpack/pack to the right level.
